@@ -49,11 +49,8 @@ theorem changed_only_with_accepted (n : Nat) (ign : List Bool) (hist : List AEv)
 
 /-! ### never ResourceChanged for an update identical to the one the watcher holds, unless a NACK intervened -/
 
-/-- histories in which every `watch` call brings a new watcher (as `WatchResource` does: the returned cancel
-    function is tied to that registration) -/
-def FreshRun : Auth → List AEv → Prop
-  | _, [] => True
-  | a, e :: es => Fresh a e ∧ FreshRun (a.step e).auth es
+/- `FreshRun a hist` (GrpcProofs/Lemmas/XdsAuth.lean): histories in which every `watch` call brings a new watcher
+   (as `WatchResource` does: the returned cancel function is tied to that registration). -/
 
 /-- along a history, feed every watcher's callbacks (in order) to `Spec.okSeq`: the per-watcher record
     `WG` remembers the content of the last ResourceChanged (forgotten on a ResourceError) and whether a NACK
@@ -96,11 +93,6 @@ example :
       ([⟨1, .changed "c"⟩], [⟨1, .ambErr (.nack "e")⟩], [⟨1, .changed "c"⟩], []) := by decide
 
 /-! ### AmbientError / ResourceError exactly when the statement says -/
-
-theorem inv_run (es : List AEv) (a : Auth) (hi : AInv a) (hf : FreshRun a es) : AInv (Auth.run a es) := by
-  induction es generalizing a with
-  | nil => exact hi
-  | cons e es ih => exact ih _ (inv_step hi hf.1) hf.2
 
 /-- **C43, clause 3.** For every state and event: watcher `w` receives AmbientError(er) iff it watches a resource
     with a cached value and (a) an update that is processed (from the active or a higher-priority server) rejects
